@@ -220,15 +220,24 @@ func vfNtExec(hist []int, last bool) vfXResult {
 		st = append(st, fmt.Sprintf("u%d:%v:%s:%v", u, ok, e, att))
 	}
 	sort.Strings(st)
-	msgs := 0
+	msgs := ""
 	for _, mm := range x.w.db.Messages(x.grp) {
-		if mm.DelId == 0 {
-			msgs++
+		if mm.DelId == 0 && mm.SeqId <= 3 {
+			msgs += fmt.Sprint(mm.SeqId)
+		}
+	}
+	if tr := x.w.db.Topic(x.grp); tr != nil {
+		msgs += fmt.Sprintf("/del%d", min(tr.DelId, 2))
+	}
+	for u := range x.users {
+		if sb := x.w.db.Sub(x.grp, x.users[u].uid); sb != nil && sb.DelId > 0 {
+			msgs += fmt.Sprintf("/u%dsoft", u)
 		}
 	}
 	marks := ""
 	if s := x.w.db.Sub(x.grp, x.users[1].uid); s != nil {
-		marks = fmt.Sprintf("%d/%d", s.ReadSeqId, s.RecvSeqId)
+		// the alphabet's notes name ids 1 and 2 only: marks above 2 behave alike
+		marks = fmt.Sprintf("%d/%d", min(s.ReadSeqId, 3), min(s.RecvSeqId, 3))
 	}
 	perSubs := ""
 	for u := 2; u < 8; u++ {
@@ -238,7 +247,7 @@ func vfNtExec(hist []int, last bool) vfXResult {
 			}
 		}
 	}
-	res.Key = strings.Join(st, " ") + fmt.Sprintf(" msgs=%d m1=%s loaded=%v persubs=[%s] npub=%d", msgs, marks, vfTopic(x.grp) != nil, perSubs, min(npub, 4))
+	res.Key = strings.Join(st, " ") + fmt.Sprintf(" msgs=%s m1=%s loaded=%v persubs=[%s] npub=%d", msgs, marks, vfTopic(x.grp) != nil, perSubs, min(npub, 4))
 	return res
 }
 
